@@ -165,6 +165,27 @@ def check_property(exp, exp_closed, got, stray, err, closed, now):
     return None
 
 
+NAMED = (b'date', b'server', b'connection', b'content-length', b'content-type', b'access-control-allow-origin',
+         b'access-control-allow-headers', b'access-control-allow-methods', b'location', b'upgrade', b'sec-websocket-accept')
+
+
+def same_up_to_unnamed_headers(got, mod_bytes):
+    """the implementation's responses equal the model's except for header fields the property does not name (a server that
+    starts sending, say, X-Content-Type-Options still writes one well-framed response per request)"""
+    mod, _, merr = parse_responses(mod_bytes)
+    if merr or len(mod) != len(got):
+        return False
+    for g, m in zip(got, mod):
+        if (g['v'], g['code'], g['body'], g['delimited']) != (m['v'], m['code'], m['body'], m['delimited']):
+            return False
+        pick = lambda r: [(n.lower(), v if n.lower() != b'date' else b'DATE') for n, v in r['h'] if n.lower() in NAMED]
+        if pick(g) != pick(m):
+            return False
+        if [n for n, _ in m['h'] if n.lower() not in NAMED]:
+            return False          # the model itself has other fields (handler-set ones): compare exactly
+    return True
+
+
 def mask_date(data):
     return re.sub(rb'\r\nDate: [^\r\n]*', b'\r\nDate: DATE', data)
 
@@ -297,7 +318,7 @@ def judge(ctx, cases, m, im, runtime):
             # byte of a request (from_stream_with_timeout clears it afterwards), so nothing times out; outside the property's
             # quantifier ("idle past timeout" is the wait between requests) - compared with the model only
             # (the 400 is written only after the harness has half-closed, so the "closed" observation is not meaningful here)
-            same = mask_date(got_bytes) == mod_bytes
+            same = mask_date(got_bytes) == mod_bytes or (not err and same_up_to_unnamed_headers(got, mod_bytes))
             ctx.count('mid-request stall: model agrees' if same else 'mid-request stall: model differs')
             if not same:
                 ctx.report({'line': line, 'runtime': runtime, 'family': 'stallmid'}, b[:400], a[:400], cls='conn-mismatch', failing_input=False,
@@ -321,6 +342,9 @@ def judge(ctx, cases, m, im, runtime):
                            what='several requests delivered in one read: ' + what)
             else:
                 ctx.report(case, what + ' | ' + b[:300], 'property', cls='conn-' + cls, failing_input=True, what=what)
+        elif not same and info['family'] not in ('pipeline', 'coalesce') and closed == mod_closed and not err and \
+                same_up_to_unnamed_headers(got, mod_bytes):
+            ctx.count('responses equal the model up to header fields the property does not name')
         elif not same and info['family'] not in ('pipeline', 'coalesce'):
             ctx.report(case, b[:400], a[:400], cls='conn-mismatch', failing_input=False,
                        what='bytes on the wire differ from the model (property holds on this input)')
